@@ -6,13 +6,14 @@ from common import chunks
 
 PROP = "C17"
 LEVEL = "proof"
-THEOREMS = {"Properties.C17": ["C17_is_empty", "C17_tree_vs_rewriting", "C17_marks_sound"]}
+THEOREMS = {"Properties.C17": ["C17_remove_useless_rules", "C17_is_empty", "C17_tree_vs_rewriting", "C17_marks_sound"]}
 LEVEL_TEXT = ("Proof + correspondence: is_empty is modelled as the least fixed point of Aho's marking rules (saturation; independent of rule order by "
               "construction). A Coq theorem shows, for every rule set in reduced form and every start nonterminal, that the model answers True exactly when "
               "no terminal word can be rewritten from the start nonterminal with an empty index stack (soundness: a marked pair (A, T) means A derives a "
               "word on any stack on which all members of T do; completeness: the frontier of any derivation is marked, by induction on its size; tree-shaped "
               "derivations are proved equivalent to the rewriting semantics). pyformlang's verdict is compared with the model for every permutation sample "
-              "of the rule list, every ordering heuristic (optim 0-8), after remove_useless_rules() and on repeated calls.")
+              "of the rule list, every ordering heuristic (optim 0-8), after remove_useless_rules() (itself mirrored, proved to leave the derivable words "
+              "unchanged - C17_remove_useless_rules - and compared rule by rule with what pyformlang keeps) and on repeated calls.")
 LEVEL_NOTE = ("Trusted: Coq kernel; hand-written marking model validated by correspondence; Python harness; networkx-based ordering heuristics are exercised, "
               "not modelled. The intersection with a regular language is compared with a reference product construction (not proved).")
 RULE = ("random reduced-form indexed grammars (1-4 nonterminals, 1-2 indices, <= 10 rules, duplicated rules and several consumption rules per (index, variable) "
@@ -93,8 +94,11 @@ def impl(case):
                 v1 = bool(g.is_empty())
                 v2 = bool(g.is_empty())
                 v3 = not bool(g)
-                v4 = bool(g.remove_useless_rules().is_empty())
+                cleaned = g.remove_useless_rules()
+                v4 = bool(cleaned.is_empty())
                 res.append({"perm": pi, "optim": optim, "v": [v1, v2, v3, v4]})
+                if pi == 0 and optim == 0:
+                    res[-1]["kept"] = iglib.extract_rules(cleaned)
             except Exception as e:
                 res.append({"perm": pi, "optim": optim, "error": type(e).__name__, "msg": str(e)[:80]})
     return {"runs": res}
@@ -145,11 +149,16 @@ def check_cases(ctx, cases):
         for i in part:
             nt, ix, ter = Interner(), Interner(), Interner()
             s = nt(cases[i]["start"])
-            lines.append("Eval vm_compute in (ig_is_empty %s %d)." % (iglib.coq_rules(cases[i]["rules"], nt, ix, ter), s))
+            R = iglib.coq_rules(cases[i]["rules"], nt, ix, ter)
+            kept = [r.get("kept") for r in (obs[i].get("runs") or []) if "kept" in r] if isinstance(obs[i], dict) else []
+            # second component: the rules pyformlang keeps in remove_useless_rules() are those of the proved model
+            K = "ig_same_rules (ig_remove_useless %s %d) %s" % (R, s, iglib.coq_rules(kept[0], nt, ix, ter)) if kept else "true"
+            lines.append("Eval vm_compute in (ig_is_empty %s %d, %s)." % (R, s, K))
         srcs.append("From PFL Require Import Eval.IG.\n" + "\n".join(lines) + "\n")
     outs = ctx.coq(srcs)
     for part, vals in zip(parts, outs):
-        for i, mv in zip(part, vals):
+        for i, mv2 in zip(part, vals):
+            mv, same_kept = mv2
             c, o = cases[i], obs[i]
             ctx.dist["rules:%d" % len(c["rules"])] += 1
             if len(c["rules"]) >= 3:
@@ -171,6 +180,12 @@ def check_cases(ctx, cases):
                     ctx.fail("is_empty-verdict", c, {"run": r, "model_is_empty": mv, "differs_in": which,
                                                      "bounded_search_nonempty(depth 4)": iglib.bounded_nonempty(c["rules"])})
                     break
+            else:
+                if same_kept is not True:
+                    # every verdict agrees, only the set of kept rules differs from the proved model of remove_useless_rules
+                    ctx.fail("remove_useless_rules-model", c, {"kept": [r.get("kept") for r in o["runs"] if "kept" in r]}, correspondence_only=True)
+                else:
+                    ctx.dist["remove_useless_rules keeps exactly the rules of the proved model"] += 1
 
 
 def shrink_candidates(case):
